@@ -50,6 +50,9 @@ func getSwapOutReceiverStates() States {
 				Event_ActionFailed:    State_SendCancel,
 				Event_ActionSucceeded: State_SwapOutReceiver_AwaitFeeInvoicePayment,
 			},
+			// The fee invoice timeout is only armed when the swap is created:
+			// a swap restarted here would wait for the payment forever.
+			FailOnrecover: true,
 		},
 		State_SwapOutReceiver_AwaitFeeInvoicePayment: {
 			Action: &AwaitFeeInvoicePayment{},
